@@ -76,6 +76,28 @@ def run(ctx, crate):
                         and S.block_guard(b, ti[0]) == S.block_guard(b, z[0]) and len(b.loops_of(ti[0])) == len(b.loops_of(z[0]))
                     ok_shape = bool(reset_ok and add_ok)
                     inc_bb = i_[0]
+        once_per_file = False
+        if not ok_shape and cnt is not None and cnt[0] == "phi" and len(cnt[2]) == 2 and ("const", "int", 0) in cnt[2]:
+            # total += lines.len(), once per file: as many as the per-line loop appends for that file
+            adds = [v for v in cnt[2] if v[0] == "bin" and v[1] == "Add" and v[2] == ("rec", cnt[1]) and v[3][0] == "len"]
+            if len(adds) == 1:
+                def bare(t):
+                    while True:
+                        if t[0] in ("iter", "enumerate"):
+                            t = t[1]
+                        elif t[0] == "call" and t[1].rsplit("::", 1)[-1] in ("iter", "into_iter", "deref", "as_ref", "borrow") and len(t[2]) == 1:
+                            t = t[2][0]
+                        elif t[0] == "obj":
+                            t = t[2]
+                        else:
+                            return t
+                tz, ti = counter_defs(cnt)
+                pre = [x for x in b.reach if x not in g.lines.blocks and any(t == g.lines.head for (t, _) in b.succ[x])]
+                if bare(adds[0][3][1]) == bare(g.lines.iterable) and len(ti) == 1 and len(pre) == 1:
+                    ib = ti[0]
+                    once_per_file = ib in g.files.blocks and ib not in g.lines.blocks and b.loops_of(ib) == b.loops_of(pre[0]) \
+                        and S.block_guard(b, ib) == S.block_guard(b, pre[0])
+                    ok_shape = once_per_file
         obs.append(Ob("R12.count", g.path, "total = 0, then +1 only", ok_shape, expected="counter defined by 0 and by counter + 1 (or + a per-section count that is itself 0 then + 1 per entry, reset for every section and added once after its lines)",
                       found=show(cnt) if cnt is not None else None))
         inner = [s for s in g.pushes if g.in_loop(s, g.lines)]
@@ -84,6 +106,9 @@ def run(ctx, crate):
             gi = S.block_guard(b, inc_bb)
             ge = inner[0].guard
             same = inc_bb in g.lines.blocks and gi == ge and b.loops_of(inc_bb) == b.loops_of(inner[0].bb)
+        if once_per_file and inner:
+            # the per-line loop appends one entry per line, unconditionally and to exhaustion (R11.entries' loop obligations): lines.len() entries per file
+            same = S.block_guard(b, inner[0].bb) == S.block_guard(b, g.lines.site.term["t"]) and not g.lines.exits()[1]
         obs.append(Ob("R12.count", g.path, "one increment per appended entry", same,
                       expected="the increment sits in the per-line loop under the same guards as the entry append",
                       found="increment in bb%s, entry append in bb%s" % (inc_bb, inner[0].bb if inner else None)))
